@@ -650,6 +650,13 @@ class Interp:
                     return f
             if base.kind in ("duck", "arrow"):
                 return Bound(base, a)
+            if base.cls and not getattr(base, "lazy_done", False):
+                # a hand-built abstract object (execmodel.make_session): attributes its constructor would have created
+                # (helpers, caches, wrappers) are materialised on first miss by interpreting __init__ on a shadow object
+                base.lazy_done = True
+                self._lazy_init(base)
+                if a in base.attrs:
+                    return base.attrs[a]
             return Sym(f"{base.name}.{a}", origin=("attr", base, a))
         if isinstance(base, NodeV):
             return self.node_attr(base, a, site)
@@ -813,6 +820,12 @@ class Interp:
         if isinstance(f, ClsRef):
             return self.construct(f, args, kwargs, site)
         if isinstance(f, Part):
+            if getattr(f, "memo_deco", None) and args:
+                m = Part(args[0], [], {})
+                m.memo = f.memo_deco
+                return m
+            if getattr(f, "memo", None):
+                self.effect("memo-call", f.memo, list(args), site)
             return self.call(f.func, [*f.args, *args], {**f.kwargs, **kwargs}, site, env)
         if isinstance(f, Bound):
             return self.call_method(f.recv, f.name, args, kwargs, site, env)
@@ -946,6 +959,45 @@ class Interp:
             return ExcV(d, kwargs, args)
         return Sym(f"{d}()@{self.siteid(site)}", origin=("call", d, args, kwargs))
 
+    def _lazy_init(self, base: Obj) -> None:
+        mod, cls = base.cls
+        init = self.find_method(mod, cls, "__init__")
+        if init is None:
+            return
+        fdef = init[2]
+        params = [p.arg for p in fdef.args.posonlyargs + fdef.args.args][1:]
+        given = {}
+        for n in ast.walk(fdef):  # self.X = <param>  with X already known on the hand-built object
+            if isinstance(n, ast.Assign) and isinstance(n.value, ast.Name) and n.value.id in params:
+                for t in n.targets:
+                    if isinstance(t, ast.Attribute) and isinstance(t.value, ast.Name) and t.value.id == "self" and t.attr in base.attrs:
+                        given[n.value.id] = base.attrs[t.attr]
+        shadow = Obj(base.name, cls=base.cls, kind=base.kind)
+        shadow.lazy_done = True
+        mark = len(self.effects)
+        try:
+            self.call_func(Func(init[0], init[1], fdef, self_val=shadow), [given.get(p, Sym(f"init:{p}")) for p in params], {}, None)
+        except _Raise:
+            pass
+        del self.effects[mark:]
+
+        def rebind(v):
+            if isinstance(v, Bound) and v.recv is shadow:
+                return Bound(base, v.name)
+            if isinstance(v, Func) and v.self_val is shadow:
+                return Func(v.mod, v.qual, v.node, self_val=base)
+            if isinstance(v, Part):
+                p = Part(rebind(v.func), [rebind(x) for x in v.args], {k: rebind(x) for k, x in v.kwargs.items()})
+                for k in ("memo", "memo_deco"):
+                    if hasattr(v, k):
+                        setattr(p, k, getattr(v, k))
+                return p
+            return v
+
+        for k, v in shadow.attrs.items():
+            if k not in base.attrs:
+                base.attrs[k] = rebind(v)
+
     def call_ext(self, d: str, args, kwargs, site, env) -> Val:
         r = self.hooks.external(self, d, args, kwargs, site)
         if r is not NotImplemented:
@@ -1015,6 +1067,16 @@ class Interp:
             return Sym(f"{b}({','.join(tagof(x) for x in args)})", origin=("call", b, args, kwargs))
         if d == "functools.partial" and args:
             return Part(args[0], args[1:], kwargs)
+        if d in ("functools.lru_cache", "functools.cache"):
+            # memoisation keyed by == / hash of the arguments (and by their types only when typed=True)
+            typed = isinstance(kwargs.get("typed"), Const) and kwargs["typed"].v is True
+            if args and isinstance(args[0], (Func, Lam, Bound, Part)) and not kwargs:
+                m = Part(args[0], [], {})
+                m.memo = "untyped"
+                return m
+            deco = Part(Ext("functools.lru_cache#decorate"), [], {})
+            deco.memo_deco = "typed" if typed else "untyped"
+            return deco
         if b == "next" and args:
             src = args[0]
             if isinstance(src, (Lst, Tup)) and not getattr(src, "open", False):
@@ -1330,9 +1392,35 @@ class Interp:
             n.args[a0.v] = args[1]
             self.effect("nodeset", n, a0.v, args[1], site)
             return Const(None)
+        if name == "is_type" and n.cls == "DataType" and isinstance(n.args.get("this"), EnumV) and args:
+            # DataType.is_type(*dtypes): the type member equals one of the named ones (sqlglot builds a name with its
+            # default tokenizer: "string" is TEXT, "varchar" VARCHAR, "int" INT ...)
+            alias = {"STRING": "TEXT", "INTEGER": "INT", "NUMERIC": "DECIMAL", "NUMBER": "DECIMAL", "BOOL": "BOOLEAN", "REAL": "FLOAT"}
+            mine, known = n.args["this"].member, True
+            for a in args:
+                m = a.member if isinstance(a, EnumV) else (alias.get(a.v.upper(), a.v.upper()) if isinstance(a, Const) and isinstance(a.v, str) else None)
+                if m is None:
+                    known = False
+                elif m == mine:
+                    return Const(True)
+            if known:
+                return Const(False)
+        if name == "find_ancestor" and not n.open and n.parent is not None:
+            classes = [c.short for c in args if isinstance(c, ClsRef)]
+            if f"find_ancestor:{'|'.join(classes)}" not in n.args:
+                x = n.parent
+                while isinstance(x, NodeV):
+                    if x.cls and any(self.prog.sqlglot.issub(x.cls, c) for c in classes):
+                        return x
+                    if x.parent is None:
+                        if not x.open and x.name == "stmt":
+                            return Const(None)
+                        break
+                    x = x.parent
         if name in ("find", "find_ancestor"):
             classes = [c.short for c in args if isinstance(c, ClsRef)]
-            key = f"{name}:{'|'.join(classes)}"
+            bfs = not (isinstance(kwargs.get("bfs"), Const) and kwargs["bfs"].v is False)
+            key = f"{name}:{'|'.join(classes)}" + ("" if bfs else ":dfs")
             if key in n.args:
                 return n.args[key]
             if name == "find" and n.cls and any(self.prog.sqlglot.issub(n.cls, c) for c in classes):
@@ -1343,13 +1431,13 @@ class Interp:
                 else:
                     r = Const(None)
             else:
-                r = self.closed_find(n, classes)
+                r = self.closed_find(n, classes, bfs)
             n.args[key] = r
             return r
         if name == "find_all":
             classes = [c.short for c in args if isinstance(c, ClsRef)]
             if not n.open:
-                return Lst(self.closed_find_all(n, classes))
+                return Lst(self.closed_find_all(n, classes, not (isinstance(kwargs.get("bfs"), Const) and kwargs["bfs"].v is False)))
             return Seq(NodeV(classes[0] if len(classes) == 1 else None, name=f"{n.name}.find_all({'|'.join(classes)})"), "gen")
         if name == "transform":
             self.effect("transform", n, a0, kwargs, site)
@@ -1369,41 +1457,38 @@ class Interp:
             return n
         return Sym(f"{n.name}.{name}()@{self.siteid(site)}", origin=("method", n, name, args))
 
-    def closed_find_all(self, n: NodeV, classes) -> list:
+    def _children(self, x) -> list:
+        """child nodes in sqlglot's iteration order (arg order; list arguments contribute their items in place)"""
+        out = []
+        for k, v in x.args.items():
+            if ":" in k:
+                continue
+            if isinstance(v, (Lst, Tup)):
+                out.extend(i for i in v.items if isinstance(i, NodeV))
+            elif isinstance(v, NodeV):
+                out.append(v)
+        return out
+
+    def closed_find_all(self, n: NodeV, classes, bfs: bool = True) -> list:
+        """matching nodes of a closed tree in the traversal order sqlglot uses (breadth-first unless bfs=False)"""
         out, seen, todo = [], set(), [n]
         sg = self.prog.sqlglot
         while todo:
             x = todo.pop(0)
-            if id(x) in seen:
+            if id(x) in seen or not isinstance(x, NodeV):
                 continue
             seen.add(id(x))
-            if isinstance(x, NodeV):
-                if x.cls and any(sg.issub(x.cls, c) for c in classes):
-                    out.append(x)
-                todo.extend(v for k, v in x.args.items() if ":" not in k)
-            elif isinstance(x, (Lst, Tup)):
-                todo.extend(x.items)
+            if x.cls and any(sg.issub(x.cls, c) for c in classes):
+                out.append(x)
+            if bfs:
+                todo.extend(self._children(x))
+            else:
+                todo[0:0] = self._children(x)
         return out
 
-    def closed_find(self, n: NodeV, classes) -> Val:
-        seen = set()
-        todo = [n]
-        sg = self.prog.sqlglot
-        while todo:
-            x = todo.pop(0)
-            if id(x) in seen:
-                continue
-            seen.add(id(x))
-            if isinstance(x, NodeV):
-                if x.cls and any(sg.issub(x.cls, c) for c in classes):
-                    return x
-                for k, v in x.args.items():
-                    if ":" in k:
-                        continue
-                    todo.append(v)
-            elif isinstance(x, (Lst, Tup)):
-                todo.extend(x.items)
-        return Const(None)
+    def closed_find(self, n: NodeV, classes, bfs: bool = True) -> Val:
+        r = self.closed_find_all(n, classes, bfs)
+        return r[0] if r else Const(None)
 
     # ------------------------------------------------------------------ statements
     def block(self, stmts, env: Env) -> None:
